@@ -33,10 +33,10 @@ func runC05(c *Collector, r *Rng, thorough bool) {
 	kinds := []string{"DSign1", "DSign1U", "DSignature", "DSignMsg", "DProt", "DUnprot"}
 	// corpus: minimised inputs of earlier findings run first
 	for _, cs := range []struct{ kind, hex string }{
-		{"DProt", "46a1d9d9f70126"},                   // label 55799(1)
-		{"DSign1", "d28446a1d9d9f70126a0f64101"},      // same inside a COSE_Sign1
-		{"DUnprot", "a1d9d9f7044101"},                 // standalone unprotected bucket
-		{"DUnprot", "a104d9d9f74101"},                 // 55799 before a governed value
+		{"DProt", "46a1d9d9f70126"},                                           // label 55799(1)
+		{"DSign1", "d28446a1d9d9f70126a0f64101"},                              // same inside a COSE_Sign1
+		{"DUnprot", "a1d9d9f7044101"},                                         // standalone unprotected bucket
+		{"DUnprot", "a104d9d9f74101"},                                         // 55799 before a governed value
 		{"DUnprot", "a107f6"}, {"DUnprot", "a10780"}, {"DUnprot", "a10781f6"}, // fixed: null / empty / [null] countersignature
 		{"DSign1", "d28440a107f6f64101"},
 		// IV in one bucket, Partial IV in the other, in every structure and layer
